@@ -910,7 +910,9 @@ CHECKS = {
     'C19': dict(modules=['FastPasta.Props.C19'], run=run_c19, needs_harness=False, corr='view_model',
                 theorems=['FastPasta.C19.rdh_view_rows', 'FastPasta.C19.rdh_view_rows_explicit', 'FastPasta.C19.word_rows_spec', 'FastPasta.C19.word_rows_complete',
                           'FastPasta.C19.byte_fatal_iff', 'FastPasta.C19.byte_error_iff', 'FastPasta.C19.lane_status_fatal_iff', 'FastPasta.C19.viewKind_eq_kindOfId',
-                          'FastPasta.C19.types_agree_on_conforming']),
+                          'FastPasta.C19.types_agree_on_conforming',
+                          # tie by translation: the views' byte predicates are the source's (Spec/WordsSrcGen.lean)
+                          'FastPasta.C19.lane_status_src', 'FastPasta.C19.word_attr_bits_src']),
     'C05': dict(modules=['FastPasta.Props.C05'], run=run_c05, needs_harness=True, corr='collector',
                 theorems=['FastPasta.C05.schedule_independent', 'FastPasta.C05.display_and_exit_independent', 'FastPasta.C05.field_run', 'FastPasta.C05.field_indep',
                           'FastPasta.C05.counter_indep', 'FastPasta.C05.alpide_indep', 'FastPasta.C05.errors_run', 'FastPasta.sortStable_congr', 'FastPasta.sorted_unique',
